@@ -54,6 +54,7 @@ T = {
  "C14": ("C14Trace", "c14", [], False, True, [("Recv", ["bytes"]), ("End", ["leaked"])]),
  "C18": ("C18Trace", "c18", [], False, False, [("Cell", ["obs", "established"])]),
  "C19": ("C19Trace", "c19", [], False, False, [("Out", ["value"]), ("Out", ["topic"]), ("Out", ["consok"])]),
+ "C05BIG": ("C05BigTrace", "cagg", ["-mode", "c05big"], False, False, [("Big", ["tp", 0]), ("Big", ["com", 1]), ("Big", ["end"])]),
 }
 
 def main():
